@@ -431,6 +431,26 @@ Theorem C17_lde_rows_from_segments :
 Proof. intros F O L. exact (lde_rows_from_segments O L). Qed.
 Print Assumptions C17_lde_rows_from_segments.
 
+(* ---- the merge of auxiliary boundary groups into main groups with an equal divisor (prover BoundaryConstraints::new) is
+        value-preserving: the prover's groups are the realisation (single / small / large lists of BOTH segments) of the
+        abstract merged groups `ags`, and for every x the sum over the merged groups of (all main terms + all aux terms) times
+        1/(x^a - b) equals the sum over ALL assertions of the main groups plus the sum over ALL assertions of the auxiliary
+        groups — no matter which groups were merged.  (C17_table_row_spec uses exactly this; comp_def is per assertion.) *)
+Theorem C17_group_merge_value_preserving :
+  forall {F} (O : FOps F) (L : FLaws O) (n ceb : nat) (offset : F) (rou : nat -> F)
+    (main_groups aux_groups : list BGroup) (tpolys apolys : list (list F)),
+  prover_groups O n ceb offset rou main_groups aux_groups = map (realize O n ceb offset rou) (ags O main_groups aux_groups)
+  /\ forall x : F,
+     rsum O (map (fun ag => fmul O (ag_num O tpolys apolys x ag) (dfac O x (ag_div ag))) (ags O main_groups aux_groups))
+     = fadd O (rsum O (map (fun g => fmul O (rsum O (map (bterm O tpolys x) (bg_cs g))) (dfac O x (bg_div g))) main_groups))
+              (rsum O (map (fun g => fmul O (rsum O (map (bterm O apolys x) (bg_cs g))) (dfac O x (bg_div g))) aux_groups)).
+Proof.
+  intros F O L n ceb offset rou mg ag tp ap. split.
+  - exact (prover_groups_realize O n ceb offset rou mg ag).
+  - exact (ags_sum_spec O L mg ag tp ap).
+Qed.
+Print Assumptions C17_group_merge_value_preserving.
+
 (* ---- non-vacuity: each theorem above instantiated in the 64-bit field with ALL hypotheses discharged
         (Proofs/CompositionExamples.v).  Instance A: trace length 2, ce blowup 2, a periodic column, an auxiliary column,
         a single-value group at step 0, a two-value sequence group with first step 1, an auxiliary group sharing the first
